@@ -102,6 +102,29 @@ impl World {
                 }
             }
         }
+        if bad.is_none() {
+            // find_conflict on the entry batches that are actually in flight towards this node
+            let model_match = |i: u64, t: u64| -> bool {
+                if i + 1 < a_first || i > a_last {
+                    t == 0
+                } else {
+                    Self::term_at(node, i) == Some(t)
+                }
+            };
+            for (k, f) in self.flights.iter() {
+                if k.t != n || f.msg.entries.is_empty() || f.msg.get_msg_type() != MessageType::MsgAppend {
+                    continue;
+                }
+                let ents: Vec<raft::eraftpb::Entry> = f.msg.entries.to_vec();
+                let got = log.find_conflict(&ents);
+                let want = ents.iter().find(|e| !model_match(e.index, e.term)).map(|e| e.index).unwrap_or(0);
+                compared += 1;
+                if got != want {
+                    bad = Some(format!("find_conflict(entries {}..={} of an in-flight append) = {got}, model {want}", ents[0].index, ents[ents.len() - 1].index));
+                    break;
+                }
+            }
+        }
         if bad.is_none() && a_last >= a_first {
             // sampled slices with size limits
             let mut p = crate::prng::mix(self.step_no, n + 77);
